@@ -11,7 +11,7 @@ import (
 
 type Planted struct {
 	Spec  *Spec
-	Kind  string   // cycle-direct, cycle-self, cycle-bind, cycle-field, cycle-second-result, dup-providers, dup-bind, dup-field, dup-two-structs, dup-same-struct, orphan
+	Kind  string     // cycle-direct, cycle-self, cycle-bind, cycle-field, cycle-second-result, dup-providers, dup-bind, dup-field, dup-two-structs, dup-same-struct, orphan
 	Names [][]string // for each group: at least one of these names must appear in the diagnostic
 	Note  string
 }
